@@ -3,12 +3,22 @@
    binds and tuple/list/object elements call-by-value; a stuck boolean (a primitive float
    comparison on an abstract float, is_nan, ...) is normalised and decided by a hypothesis of the
    context (up to conversion), or computed if it is closed; a stuck call of a blocked function
-   is rewritten with a hypothesis  call = value  of the context.  The primitives and the b64_* functions
+   is rewritten with a hypothesis  call = value  of the context, or with the rewrite hints of the
+   database b64run (e.g. B64Mono.fmod_py_pymod: float % as the total function pymod).  The primitives and the b64_* functions
    of B64.v are never unfolded: reason about them with PyLib.B64Verified.  Nothing here is trusted. *)
 From Coq Require Import ZArith Bool List.
 From Coq Require Import Uint63 Floats.
 From PyLib Require Import PyVal PyBuiltins B64 Whnf PyEval.
 Import ListNotations.
+
+Create HintDb b64run.
+
+(* Python's float % (the body of PyVal.fmod_py for y <> 0) as a total function; kept folded by b64run;
+   its properties are in B64Mono *)
+Definition pymod (a y : float) : float :=
+  let m := b64_fmod a y in
+  if (m =? 0)%float then (if get_sign y then (-0)%float else 0%float)
+  else if Bool.eqb (y <? 0)%float (m <? 0)%float then m else (m + y)%float.
 
 From Ltac2 Require Ltac2.
 Ltac2 Set Whnf.is_blocked as old := fun c =>
@@ -17,10 +27,10 @@ Ltac2 Set Whnf.is_blocked as old := fun c =>
        ['PrimFloat.leb; 'PrimFloat.ltb; 'PrimFloat.eqb; 'PrimFloat.compare; 'PrimFloat.abs; 'PrimFloat.opp;
         'PrimFloat.add; 'PrimFloat.sub; 'PrimFloat.mul; 'PrimFloat.div; 'PrimFloat.sqrt; 'PrimFloat.classify;
         'PrimFloat.of_uint63; 'PrimFloat.normfr_mantissa; 'PrimFloat.frshiftexp; 'PrimFloat.ldshiftexp;
-        'b64_floor; 'b64_trunc; 'b64_fmod; 'b64_of_Z; 'b64_round]).
+        'b64_floor; 'b64_trunc; 'b64_fmod; 'b64_of_Z; 'b64_round; 'pymod]).
 
 Ltac b64_decide s :=
-  let s' := eval cbv -[b64_floor b64_trunc b64_fmod b64_of_Z] in s in
+  let s' := eval cbv -[b64_floor b64_trunc b64_fmod b64_of_Z pymod] in s in
   change s with s';
   first [ match goal with H : s' = _ |- _ => rewrite H end
         | match goal with H : ?l = ?b |- _ =>
@@ -72,6 +82,7 @@ Ltac b64run :=
                                   | match goal with H : ?l = _ |- _ =>
                                       lazymatch type of l with val _ => idtac end;
                                       unify l s; change s with l; rewrite H end
+                                  | progress (autorewrite with b64run)
                                   | idtac "b64run: stuck on" s; fail ]
                      end
               end
